@@ -186,7 +186,7 @@ func c15One(c *fw.Ctx, kind string, src []byte) {
 		}
 		// a second pass: the ast the restorer made is decorated again (on the restorer's file set)
 		// and printed again
-		if e.name == "decorator.Parse" {
+		if e.name == "decorator.Parse" && (c.Quick() || len(src)%3 == 0) {
 			if sig, detail := fw.Try(func() {
 				r := decorator.NewRestorer()
 				af, err := r.RestoreFile(dst.Clone(f).(*dst.File))
